@@ -28,8 +28,22 @@ def run(ctx):
     thorough = ctx.tier == "thorough"
     core.law_runs(ctx, "Law_Bezier", ["Law_Bezier"])
     n = 300 if thorough else 20
+    # symbolic lane: control points AND the parameter are free symbols - evaluate, evaluate_derivative and both halves of
+    # split are compared with the Bernstein / de Casteljau polynomials (every curve, every t, extrapolation included);
+    # reversal, flips, 2D<->3D, Mat2/3/4 * curve in both layouts on symbolic matrices
+    def corrupt_sym(rs):
+        i = next(k for k, r in enumerate(rs) if r["op"] == "bez_split")
+        t = rs[i]["obs"][1][1][0]["ply"]
+        rs[i]["obs"][1][1][0] = {"ply": [[t[0][0] + 1, t[0][1]]] + t[1:]}
+        return i
+    core.drive_validate(ctx, "sym", "Trace_Bezier", "Trace_Bezier_S", "bezier-sym", 1,
+                        ["bez_eval", "bez_deriv", "bez_split", "bez_conv", "bez_mul"], key=key, extra_args=["--area", "bezier"],
+                        corrupt=corrupt_sym)
     core.drive_validate(ctx, "bezier", "Trace_Bezier", "Trace_Bezier_F", "bezier", n, OPS, key=key, corrupt=corrupt)
-    ctx.assumptions = ["control points, parameters and matrices are sampled exact rationals; all-input coverage is through "
+    ctx.assumptions = ["symbolic lane: vek is generic in T and stable Rust has no specialisation, so the polynomial returned on free "
+                       "symbols is the function computed for every element type; conversions that divide by a constant (into_cubic, "
+                       "from a segment) and normalized_tangent are not in this lane",
+                       "control points, parameters and matrices are sampled exact rationals; all-input coverage is through "
                        "the laws on the specification", "values compared in the prime field Z_46337",
                        "unit circle: 65 parameters per quarter, tolerance 0.03 % of the radius plus quantisation at 2^-14"]
 
